@@ -273,7 +273,9 @@ func (i ItemCollection) Equals(with Item) bool {
 	if !with.IsCollection() {
 		return false
 	}
-	if with.GetType() != CollectionOfItems {
+	// NOTE: a list of IRIs is an item list too (ItemsEqual hands IRIs over as an item list, so without this
+	// an IRI list was not even equal to itself)
+	if t := with.GetType(); t != CollectionOfItems && t != CollectionOfIRIs {
 		return false
 	}
 	result := true
